@@ -582,6 +582,8 @@ int Process::writeInput(const void* p, int n)
 
 void Process::signal(int s)
 {
+	if(_pid <= 0) // not started: kill(-1, s) would signal every process we are allowed to
+		return;
 	kill(_pid, s);
 }
 
@@ -590,7 +592,7 @@ int Process::wait()
 	if(!_ready)
 		return 0;
 	int stat;
-	if(_hasExited)
+	if(_hasExited || _pid <= 0) // not started: waitpid(-1) would reap the children of other Process objects
 		return 0;
 	if(waitpid(_pid, &stat, 0)<=0)
 	{
@@ -607,7 +609,7 @@ bool Process::finished()
 	if(!_ready)
 		return true;
 	int stat, p;
-	if(_hasExited)
+	if(_hasExited || _pid <= 0)
 		return true;
 	if((p = waitpid(_pid, &stat, WNOHANG))<0)
 		return true;
